@@ -10,6 +10,8 @@ import "github.com/cloudflare/circl/vdaf/prio3/arith/fp64"
 
 type zzFlp struct{}
 
+var zzDecideResult bool // verdict of the dummy circuit
+
 func (zzFlp) MeasurementLength() uint                     { return 1 }
 func (zzFlp) JointRandLength() uint                       { return 1 }
 func (zzFlp) OutputLength() uint                          { return 1 }
@@ -22,7 +24,7 @@ func (zzFlp) Prove(meas, proveRand, jointRand fp64.Vec) fp64.Vec { return nil }
 func (zzFlp) Query(m, p, q, j fp64.Vec, shares uint8) (fp64.Vec, error) {
 	return nil, nil
 }
-func (zzFlp) Decide(fp64.Vec) bool                  { return false }
+func (zzFlp) Decide(fp64.Vec) bool                  { return zzDecideResult }
 func (zzFlp) Encode(bool) (fp64.Vec, error)         { return nil, nil }
 func (zzFlp) Truncate(v fp64.Vec) fp64.Vec          { return v }
 func (zzFlp) Decode(fp64.Vec, uint) (*uint64, error) { return nil, nil }
@@ -95,4 +97,31 @@ func ZZ_C19_prio3_aggregateMerge_sums_and_preserves_shares() {
 		same = append(same, shares[i].share[0] == before[i])
 	}
 	zzAssert(zzAnd(same...), "the aggregation shares handed in are unchanged")
+}
+
+// C19 ("a report whose ... preparation message has been altered is rejected"): the preparation
+// message is computed from the prep shares of ALL aggregators.  With fewer shares the verifier sum
+// is not the verifier of the report (for none at all it is the zero vector, which the circuits
+// without joint randomness accept) - so every count other than the number of aggregators is
+// refused, whatever the circuit would decide (the dummy circuit's verdict is symbolic).
+//
+//zz: prop=C19 tier=quick backend=bv timeout=120
+func ZZ_C19_prio3_PrepSharesToPrep_requires_one_share_per_aggregator() {
+	shares := uint8(zzPick("numShares", 2, 3, 4))
+	n := zzPick("prepShares", 0, 1, 2, 3)
+	if int(shares) == n {
+		return // only wrong counts (the right count runs the real combination)
+	}
+	zzDecideResult = zzBool("decide")
+	v, err0 := New[zzFlp, bool, uint64, fp64.Vec, fp64.Fp, *fp64.Fp](zzFlp{}, 1, shares, []byte("ctx"))
+	if err0 != nil {
+		return
+	}
+	ps := make([]PrepShare[fp64.Vec, fp64.Fp], n)
+	for i := range ps {
+		ps[i].verifiersShare = make(fp64.Vec, 1)
+		ps[i].jointRandPart = &Seed{}
+	}
+	msg, err := v.PrepSharesToPrep(ps)
+	zzAssert(err != nil && msg == nil, "a number of prep shares other than the number of aggregators is refused")
 }
